@@ -327,4 +327,6 @@ func main() {
 	writeIfChanged(filepath.Join(outDir, "Routing.lean"), genRouting(repoRoot)) // C01 / C11 (extract/routing.go): never exits
 	writeIfChanged(filepath.Join(outDir, "ChainFacts.lean"), genChainFacts(repoRoot)) // C02 / C10 (extract/chainfacts.go): never exits
 	writeIfChanged(filepath.Join(outDir, "Logging.lean"), genLogging(repoRoot)) // C20 (extract/logging.go): never exits
+	writeIfChanged(filepath.Join(outDir, "ErrFmt.lean"), genErrFmt(repoRoot)) // C06 (extract/errfmt.go, extract/flatfacts.go): never exits
+	writeIfChanged(filepath.Join(outDir, "Validation.lean"), genValidation(repoRoot)) // C05 (extract/validation.go): never exits
 }
